@@ -59,6 +59,8 @@ package xpath
 //@   ensures-assumed[stream-def] result == nil ==> slen(ref(self), epoch(self)) == old(k(self))
 //@   ensures-assumed[stream-def] 0 <= old(k(self)) && old(k(self)) <= slen(ref(self), epoch(self))
 //@   ensures[cursor-restored@C13] pos(cur(t)) == old(pos(cur(t)))
+//@   ghost xh(self) = result == nil
+//@   ensures[absorbing@C12] old(xh(self)) && absb(ref(self)) ==> result == nil
 
 //@ iface query.Evaluate(t) result
 //@   requires t != nil
@@ -68,6 +70,7 @@ package xpath
 //@   ghost k(self) = 0
 //@   ghost epoch(self) = old(epoch(self)) + 1
 //@   ghost ctxp(self) = old(pos(cur(t)))
+//@   ghost xh(self) = false
 //@   ensures-assumed[query-value] is(result, query) ==> result == self
 //@   ensures-assumed[eval-def] result == evalv(ref(self), epoch(self))
 //@   ensures[cursor-restored@C13] pos(cur(t)) == old(pos(cur(t)))
@@ -636,13 +639,17 @@ package xpath
 //@   captures root != nil
 
 //@ func (*ancestorQuery).Select
-//@   props C15 C13 C01
-//@   theory stream for C13 C01
+//@   props C15 C13 C01 C12
+//@   theory stream for C13 C01 C12
 //@   uses one-document
 //@   loop 0 invariant a.table != nil
 //@   loop 1 invariant a.table != nil && a.iterator != nil
 //@   loop * invariant[cursor@C13] cur(t) == old(cur(t)) && pos(cur(t)) == old(pos(cur(t)))
 //@   ensures[drains-input@C01] result == nil ==> k(a.Input) == slen(ref(a.Input), epoch(a.Input))
+//@   assume[absb-def] absb(ref(a)) == absb(ref(a.Input))
+//@   assume[exhausted-state] xh(a) ==> a.iterator == nil && xh(a.Input)     // only Select/Evaluate of this object touch these; re-established below
+//@   ensures[exhausted-state@C12] result == nil ==> a.iterator == nil && xh(a.Input)
+//@   loop * invariant[exhausted@C12] a.Input == old(a.Input) && (old(xh(a)) && absb(ref(a)) ==> a.iterator == nil && xh(a.Input))
 //@ func (*ancestorQuery).Select$1
 //@   props C15 C01
 //@   mode int
@@ -760,13 +767,23 @@ package xpath
 //@   conforms type iteratorFunc
 //@   captures node != nil
 //@ func (*booleanQuery).Select$1
-//@   props C15 C11
+//@   props C15 C11 C12
+//@   conforms booleanQuery.iterator
+//@   modifies heap(C@*)
 //@   captures 0 <= i
+//@   assume[list-elements] elemsNonNil(list)     // the creator only appends copies of navigators (not proved: quantified list invariants of the creator time out)
+//@   assume[exhausted-state] ixh(fnself) ==> i >= len(list)     // i and list are private to this closure; re-established below
+//@   ensures[exhausted-state@C12] result == nil ==> i >= len(list)
 //@   ensures[in-order@C11] old(i) < len(list) ==> result == list[old(i)] && i == old(i) + 1
 //@   ensures[then-nil@C11] old(i) >= len(list) ==> result == nil && i == old(i)
 //@ func (*unionQuery).Select$1
-//@   props C15 C11
+//@   props C15 C11 C12
+//@   conforms unionQuery.iterator
+//@   modifies heap(C@*)
 //@   captures 0 <= i
+//@   assume[list-elements] elemsNonNil(list)     // the creator only appends copies of navigators (not proved: quantified list invariants of the creator time out)
+//@   assume[exhausted-state] ixh(fnself) ==> i >= len(list)     // i and list are private to this closure; re-established below
+//@   ensures[exhausted-state@C12] result == nil ==> i >= len(list)
 //@   ensures[in-order@C11] old(i) < len(list) ==> result == list[old(i)] && i == old(i) + 1
 //@   ensures[then-nil@C11] old(i) >= len(list) ==> result == nil && i == old(i)
 //@ func (*mergeQuery).Select$1
@@ -777,8 +794,8 @@ package xpath
 //@ define pv(f, e) = evalv(ref(f.Predicate), e)
 //@ define epochOf(f, j, k0, e0) = e0 + (j - k0) + 1
 //@ func (*filterQuery).Select
-//@   props C15 C13 C02
-//@   theory stream for C13 C02
+//@   props C15 C13 C02 C12
+//@   theory stream for C13 C02 C12
 //@   uses one-document
 //@   assume[ownership] ref(f.Input) != ref(f.Predicate)
 //@   ensures[keeps-passing@C02] result != nil && !is(f.Predicate, nopQuery) ==> k(f.Input) > old(k(f.Input)) && pos(result) == inAt(f.Input, k(f.Input) - 1) && ctxp(f.Predicate) == pos(result) && (!is(pv(f, epoch(f.Predicate)), float64) ==> predTruth(pv(f, epoch(f.Predicate)), epoch(f.Predicate), 0))
@@ -788,6 +805,10 @@ package xpath
 //@   loop 0 invariant f.positmap != nil
 //@   loop * invariant[cursor@C13] cur(t) == old(cur(t)) && pos(cur(t)) == old(pos(cur(t)))
 //@   loop * invariant[root@C13] pos(root) == old(pos(cur(t)))
+//@   assume[absb-def] absb(ref(f)) == absb(ref(f.Input))
+//@   assume[exhausted-state] xh(f) ==>  xh(f.Input)     // only Select/Evaluate of this object touch these; re-established below
+//@   ensures[exhausted-state@C12] result == nil ==>  xh(f.Input)
+//@   loop * invariant[exhausted@C12] f.Input == old(f.Input) && (old(xh(f)) && absb(ref(f)) ==>  xh(f.Input))
 //@ func (*descendantOverDescendantQuery).moveToFirstChild
 //@   props C15 C13 C01
 //@   requires[@C15] d.currentNode != nil
@@ -813,6 +834,21 @@ package xpath
 //@   keeps-cursor
 //@   ensures-assumed[deterministic] result == predv(ref(self), pos(n))     // the node test of a query object is a function of the position (proved for the tests axisPredicate builds: C14)
 
+// The list-backed iterators of union and (boolean-as-step) queries are kept after they are exhausted:
+// they must stay exhausted (ixh: ghost flag of the function value).
+//@ field unionQuery.iterator() result
+//@   keeps-cursor
+//@   modifies heap(C@*)
+//@   ghost ixh(fnself) = result == nil
+//@   ensures[absorbing@C12] old(ixh(fnself)) ==> result == nil
+//@ field booleanQuery.iterator() result
+//@   keeps-cursor
+//@   modifies heap(C@*)
+//@   ghost ixh(fnself) = result == nil
+//@   ensures[absorbing@C12] old(ixh(fnself)) ==> result == nil
+//@ field descendantQuery.iterator() result
+//@   keeps-cursor
+//@   modifies heap(C@*), heap(navpos), heap(F:descendantQuery.level)
 //@ field *.iterator() result
 //@   keeps-cursor
 //@   modifies heap(C@*), heap(navpos), heap(F:descendantQuery.level), heap(F:followingQuery.posit), heap(F:precedingQuery.posit), heap(F:descendantQuery.*), heap(F:contextQuery.count), heap(S:*)
@@ -1132,14 +1168,19 @@ package xpath
 //@   ensures[cursor-restored@C13] pos(cur(t)) == old(pos(cur(t)))
 //@   loop * invariant[cursor@C13] cur(t) == old(cur(t)) && pos(cur(t)) == old(pos(cur(t)))
 //@ func (*descendantQuery).Select
-//@   props C15 C13 C01
-//@   theory stream for C13 C01
+//@   props C15 C13 C01 C12
+//@   theory stream for C13 C01 C12
 //@   uses one-document
 //@   requires[@C15] t != nil
 //@   tree-frame
 //@   preserves heap(F:NodeIterator.*)
 //@   loop * invariant[cursor@C13] cur(t) == old(cur(t)) && pos(cur(t)) == old(pos(cur(t)))
 //@   ensures[drains-input@C01] result == nil ==> k(d.Input) == slen(ref(d.Input), epoch(d.Input))
+//@   assume[absb-def] absb(ref(d)) == absb(ref(d.Input))
+//@   assume[exhausted-state] xh(d) ==> d.iterator == nil && xh(d.Input)     // only Select/Evaluate of this object touch these; re-established below
+//@   ensures[exhausted-state@C12] result == nil ==> d.iterator == nil && xh(d.Input)
+//@   loop * invariant[input-fixed@C12] d.Input == old(d.Input)
+//@   loop * invariant[exhausted@C12] old(xh(d)) && absb(ref(d)) ==> d.iterator == nil && xh(d.Input)
 
 //@ field result predicate(n) result
 //@   requires n != nil
@@ -2193,99 +2234,136 @@ package xpath
 // operand is always resolved against the caller's context node.
 //@ axiom[one-document] forall(p, Pos, forall(q, Pos, rootof(p) == rootof(q)))
 //@ func (*contextQuery).Select
-//@   props C15 C13
-//@   theory stream for C13
+//@   props C15 C13 C12
+//@   theory stream for C13 C12
 //@   uses one-document
 //@   ensures[context-node@C13] old(c.count) == 0 ==> result != nil && pos(result) == old(pos(cur(t))) && isFresh(result)
 //@   ensures[once@C13] old(c.count) > 0 ==> result == nil
+//@   assume[exhausted-state] xh(c) ==> c.count > 0
+//@   ensures[exhausted-state@C12] result == nil ==> c.count > 0
 //@ func (*absoluteQuery).Select
-//@   props C15 C13
-//@   theory stream for C13
+//@   props C15 C13 C12
+//@   theory stream for C13 C12
 //@   uses one-document
 //@   ensures[document-root@C13] old(a.count) == 0 ==> n != nil && pos(n) == rootof(old(pos(cur(t)))) && isFresh(n)
 //@   ensures[once@C13] old(a.count) > 0 ==> n == nil
+//@   assume[exhausted-state] xh(a) ==> a.count > 0
+//@   ensures[exhausted-state@C12] result == nil ==> a.count > 0
 //@ func (*attributeQuery).Select
-//@   props C15 C13 C01
-//@   theory stream for C13 C01
+//@   props C15 C13 C01 C12
+//@   theory stream for C13 C01 C12
 //@   uses one-document
 //@   loop * invariant[cursor@C13] cur(t) == old(cur(t)) && pos(cur(t)) == old(pos(cur(t)))
 //@   ensures[drains-input@C01] result == nil ==> k(a.Input) == slen(ref(a.Input), epoch(a.Input))
+//@   assume[absb-def] absb(ref(a)) == absb(ref(a.Input))
+//@   assume[exhausted-state] xh(a) ==> a.iterator == nil && xh(a.Input)     // only Select/Evaluate of this object touch these; re-established below
+//@   ensures[exhausted-state@C12] result == nil ==> a.iterator == nil && xh(a.Input)
+//@   loop * invariant[exhausted@C12] a.Input == old(a.Input) && (old(xh(a)) && absb(ref(a)) ==> a.iterator == nil && xh(a.Input))
 //@ func (*childQuery).Select
-//@   props C15 C13 C03 C01
-//@   theory stream for C13 C03 C01
+//@   props C15 C13 C03 C01 C12
+//@   theory stream for C13 C03 C01 C12
 //@   ensures[position-per-parent@C03] result != nil ==> c.posit == ite(k(c.Input) == old(k(c.Input)), old(c.posit) + 1, 1)
 //@   ensures[drains-input@C01] result == nil ==> k(c.Input) == slen(ref(c.Input), epoch(c.Input))
 //@   loop 0 invariant[position@C03] k(c.Input) >= old(k(c.Input)) && (c.iterator != nil ==> k(c.Input) == old(k(c.Input)) && c.posit == old(c.posit))
 //@   uses one-document
 //@   loop * invariant[cursor@C13] cur(t) == old(cur(t)) && pos(cur(t)) == old(pos(cur(t)))
+//@   assume[absb-def] absb(ref(c)) == absb(ref(c.Input))
+//@   assume[exhausted-state] xh(c) ==> c.iterator == nil && xh(c.Input)     // only Select/Evaluate of this object touch these; re-established below
+//@   ensures[exhausted-state@C12] result == nil ==> c.iterator == nil && xh(c.Input)
+//@   loop * invariant[exhausted@C12] c.Input == old(c.Input) && (old(xh(c)) && absb(ref(c)) ==> c.iterator == nil && xh(c.Input))
 //@ func (*cachedChildQuery).Select
-//@   props C15 C13 C03 C01
-//@   theory stream for C13 C03 C01
+//@   props C15 C13 C03 C01 C12
+//@   theory stream for C13 C03 C01 C12
 //@   ensures[position-per-parent@C03] result != nil ==> c.posit == ite(k(c.Input) == old(k(c.Input)), old(c.posit) + 1, 1)
 //@   ensures[drains-input@C01] result == nil ==> k(c.Input) == slen(ref(c.Input), epoch(c.Input))
 //@   loop 0 invariant[position@C03] k(c.Input) >= old(k(c.Input)) && (c.iterator != nil ==> k(c.Input) == old(k(c.Input)) && c.posit == old(c.posit))
 //@   uses one-document
 //@   loop * invariant[cursor@C13] cur(t) == old(cur(t)) && pos(cur(t)) == old(pos(cur(t)))
+//@   assume[absb-def] absb(ref(c)) == absb(ref(c.Input))
+//@   assume[exhausted-state] xh(c) ==> c.iterator == nil && xh(c.Input)     // only Select/Evaluate of this object touch these; re-established below
+//@   ensures[exhausted-state@C12] result == nil ==> c.iterator == nil && xh(c.Input)
+//@   loop * invariant[exhausted@C12] c.Input == old(c.Input) && (old(xh(c)) && absb(ref(c)) ==> c.iterator == nil && xh(c.Input))
 //@ func (*followingQuery).Select
-//@   props C15 C13 C01
-//@   theory stream for C13 C01
+//@   props C15 C13 C01 C12
+//@   theory stream for C13 C01 C12
 //@   uses one-document
 //@   loop * invariant[cursor@C13] cur(t) == old(cur(t)) && pos(cur(t)) == old(pos(cur(t)))
 //@   ensures[drains-input@C01] result == nil ==> k(f.Input) == slen(ref(f.Input), epoch(f.Input))
+//@   assume[absb-def] absb(ref(f)) == absb(ref(f.Input))
+//@   assume[exhausted-state] xh(f) ==> f.iterator == nil && xh(f.Input)     // only Select/Evaluate of this object touch these; re-established below
+//@   ensures[exhausted-state@C12] result == nil ==> f.iterator == nil && xh(f.Input)
+//@   loop * invariant[exhausted@C12] f.Input == old(f.Input) && (old(xh(f)) && absb(ref(f)) ==> f.iterator == nil && xh(f.Input))
 //@ func (*precedingQuery).Select
-//@   props C15 C13 C01
-//@   theory stream for C13 C01
+//@   props C15 C13 C01 C12
+//@   theory stream for C13 C01 C12
 //@   uses one-document
 //@   loop * invariant[cursor@C13] cur(t) == old(cur(t)) && pos(cur(t)) == old(pos(cur(t)))
 //@   ensures[drains-input@C01] result == nil ==> k(p.Input) == slen(ref(p.Input), epoch(p.Input))
+//@   assume[absb-def] absb(ref(p)) == absb(ref(p.Input))
+//@   assume[exhausted-state] xh(p) ==> p.iterator == nil && xh(p.Input)     // only Select/Evaluate of this object touch these; re-established below
+//@   ensures[exhausted-state@C12] result == nil ==> p.iterator == nil && xh(p.Input)
+//@   loop * invariant[exhausted@C12] p.Input == old(p.Input) && (old(xh(p)) && absb(ref(p)) ==> p.iterator == nil && xh(p.Input))
 //@ define inAt(q, j) = spos(ref(q), epoch(q), j)
 //@ func (*parentQuery).Select
-//@   props C15 C13 C01
-//@   theory stream for C13 C01
+//@   props C15 C13 C01 C12
+//@   theory stream for C13 C01 C12
 //@   uses one-document
 //@   ensures[parent-of-input@C01] result != nil ==> k(p.Input) > old(k(p.Input)) && !isroot(inAt(p.Input, k(p.Input) - 1)) && pos(result) == parent(inAt(p.Input, k(p.Input) - 1)) && predv(ref(p), pos(result)) && isFresh(result)
 //@   ensures[skipped-have-none@C01] forall(j, Int, old(k(p.Input)) <= j && j < ite(result != nil, k(p.Input) - 1, k(p.Input)) ==> isroot(inAt(p.Input, j)) || !predv(ref(p), parent(inAt(p.Input, j))))
 //@   ensures[drains-input@C01] result == nil ==> k(p.Input) == slen(ref(p.Input), epoch(p.Input))
 //@   loop 0 invariant[scan@C01] old(k(p.Input)) <= k(p.Input) && epoch(p.Input) == old(epoch(p.Input)) && forall(j, Int, old(k(p.Input)) <= j && j < k(p.Input) ==> isroot(inAt(p.Input, j)) || !predv(ref(p), parent(inAt(p.Input, j))))
 //@   loop * invariant[cursor@C13] cur(t) == old(cur(t)) && pos(cur(t)) == old(pos(cur(t)))
+//@   assume[absb-def] absb(ref(p)) == absb(ref(p.Input))
+//@   assume[exhausted-state] xh(p) ==>  xh(p.Input)     // only Select/Evaluate of this object touch these; re-established below
+//@   ensures[exhausted-state@C12] result == nil ==>  xh(p.Input)
+//@   loop * invariant[exhausted@C12] p.Input == old(p.Input) && (old(xh(p)) && absb(ref(p)) ==>  xh(p.Input))
 //@ func (*selfQuery).Select
-//@   props C15 C13 C01
-//@   theory stream for C13 C01
+//@   props C15 C13 C01 C12
+//@   theory stream for C13 C01 C12
 //@   uses one-document
 //@   ensures[self-of-input@C01] result != nil ==> k(s.Input) > old(k(s.Input)) && pos(result) == inAt(s.Input, k(s.Input) - 1) && predv(ref(s), pos(result))
 //@   ensures[skipped-fail-test@C01] forall(j, Int, old(k(s.Input)) <= j && j < ite(result != nil, k(s.Input) - 1, k(s.Input)) ==> !predv(ref(s), inAt(s.Input, j)))
 //@   ensures[drains-input@C01] result == nil ==> k(s.Input) == slen(ref(s.Input), epoch(s.Input))
 //@   loop 0 invariant[scan@C01] old(k(s.Input)) <= k(s.Input) && epoch(s.Input) == old(epoch(s.Input)) && forall(j, Int, old(k(s.Input)) <= j && j < k(s.Input) ==> !predv(ref(s), inAt(s.Input, j)))
 //@   loop * invariant[cursor@C13] cur(t) == old(cur(t)) && pos(cur(t)) == old(pos(cur(t)))
+//@   assume[absb-def] absb(ref(s)) == absb(ref(s.Input))
+//@   assume[exhausted-state] xh(s) ==>  xh(s.Input)     // only Select/Evaluate of this object touch these; re-established below
+//@   ensures[exhausted-state@C12] result == nil ==>  xh(s.Input)
+//@   loop * invariant[exhausted@C12] s.Input == old(s.Input) && (old(xh(s)) && absb(ref(s)) ==>  xh(s.Input))
 //@ func (*functionQuery).Select
 //@   props C15 C13
 //@   theory stream for C13
 //@   uses one-document
 //@ func (*transformFunctionQuery).Select
-//@   props C15 C13
-//@   theory stream for C13
+//@   props C15 C13 C12
+//@   theory stream for C13 C12
 //@   uses one-document
 //@   loop * invariant[cursor@C13] cur(t) == old(cur(t)) && pos(cur(t)) == old(pos(cur(t)))
+//@   assume[absb-def] !absb(ref(f))     // not claimed: re-evaluates its operands / keeps a function-made iterator
 //@ func (*constantQuery).Select
 //@   props C15 C13
 //@   theory stream for C13
 //@   uses one-document
 //@ func (*groupQuery).Select
-//@   props C15 C13
-//@   theory stream for C13
+//@   props C15 C13 C12
+//@   theory stream for C13 C12
 //@   uses one-document
 //@   loop * invariant[cursor@C13] cur(t) == old(cur(t)) && pos(cur(t)) == old(pos(cur(t)))
+//@   assume[absb-def] absb(ref(g)) == absb(ref(g.Input))
+//@   assume[exhausted-state] xh(g) ==>  xh(g.Input)     // only Select/Evaluate of this object touch these; re-established below
+//@   ensures[exhausted-state@C12] result == nil ==>  xh(g.Input)
 //@ func (*logicalQuery).Select
-//@   props C15 C13
-//@   theory stream for C13
+//@   props C15 C13 C12
+//@   theory stream for C13 C12
 //@   uses one-document
 //@   loop * invariant[cursor@C13] cur(t) == old(cur(t)) && pos(cur(t)) == old(pos(cur(t)))
+//@   assume[absb-def] !absb(ref(l))     // not claimed: re-evaluates its operands / keeps a function-made iterator
 //@ func (*numericQuery).Select
 //@   props C15 C13
 //@   theory stream for C13
 //@   uses one-document
 //@ func (*booleanQuery).Select
-//@   props C15 C13
+//@   props C15 C13 C12
 //@   assume[ownership] ref(b.Left) != ref(b.Right)
 //@   ensures[materialised@C13] old(b.iterator) == nil ==> k(b.Left) == slen(ref(b.Left), epoch(b.Left)) && k(b.Right) == slen(ref(b.Right), epoch(b.Right))
 //@   loop 1 invariant[left-drained@C13] k(b.Left) == slen(ref(b.Left), epoch(b.Left))
@@ -2294,7 +2372,7 @@ package xpath
 //@   loop 4 invariant[drainedR@C13] k(b.Right) == slen(ref(b.Right), epoch(b.Right))
 //@   loop 5 invariant[drainedL@C13] k(b.Left) == slen(ref(b.Left), epoch(b.Left))
 //@   loop 5 invariant[drainedR@C13] k(b.Right) == slen(ref(b.Right), epoch(b.Right))
-//@   theory stream for C13
+//@   theory stream for C13 C12
 //@   uses one-document
 //@   loop * invariant[cursor@C13] cur(t) == old(cur(t))
 //@   loop 0 invariant[cursor0@C13] pos(cur(t)) == old(pos(cur(t)))
@@ -2304,12 +2382,14 @@ package xpath
 //@   loop 4 invariant[cursor4@C13] pos(cur(t)) == old(pos(cur(t)))
 //@   loop 5 invariant[cursor5@C13] pos(cur(t)) == old(pos(cur(t)))
 //@   loop * invariant[root@C13] pos(root) == old(pos(cur(t)))
+//@   assume[exhausted-state] xh(b) ==> b.iterator != nil && ixh(b.iterator)
+//@   ensures[exhausted-state@C12] result == nil ==> b.iterator != nil && ixh(b.iterator)
 //@ func (*unionQuery).Select
-//@   props C15 C13 C11
+//@   props C15 C13 C11 C12
 //@   assume[ownership] ref(u.Left) != ref(u.Right)
 //@   ensures[materialised@C13,C11] old(u.iterator) == nil ==> k(u.Left) == slen(ref(u.Left), epoch(u.Left)) && k(u.Right) == slen(ref(u.Right), epoch(u.Right))
 //@   loop 1 invariant[left-drained@C13,C11] k(u.Left) == slen(ref(u.Left), epoch(u.Left))
-//@   theory stream for C13 C11
+//@   theory stream for C13 C11 C12
 //@   uses one-document
 //@   loop * invariant[cursor@C13] cur(t) == old(cur(t))
 //@   loop 0 invariant[cursor-left@C13] pos(cur(t)) == old(pos(cur(t)))
@@ -2320,13 +2400,15 @@ package xpath
 //@   loop 0 invariant[left-seen@C11] old(k(u.Left)) <= k(u.Left) && forall(j, Int, old(k(u.Left)) <= j && j < k(u.Left) ==> has(m, hashkey(spos(ref(u.Left), epoch(u.Left), j))))
 //@   loop 1 invariant[left-seen@C11] forall(j, Int, old(k(u.Left)) <= j && j < k(u.Left) ==> has(m, hashkey(spos(ref(u.Left), epoch(u.Left), j))))
 //@   loop 1 invariant[right-seen@C11] old(k(u.Right)) <= k(u.Right) && forall(j, Int, old(k(u.Right)) <= j && j < k(u.Right) ==> has(m, hashkey(spos(ref(u.Right), epoch(u.Right), j))))
+//@   assume[exhausted-state] xh(u) ==> u.iterator != nil && ixh(u.iterator)
+//@   ensures[exhausted-state@C12] result == nil ==> u.iterator != nil && ixh(u.iterator)
 //@ func (*lastFuncQuery).Select
 //@   props C15 C13
 //@   theory stream for C13
 //@   uses one-document
 //@ func (*descendantOverDescendantQuery).Select
-//@   props C15 C13 C01
-//@   theory stream for C13 C01
+//@   props C15 C13 C01 C12
+//@   theory stream for C13 C01 C12
 //@   uses one-document
 //@   loop * invariant[cursor@C13] cur(t) == old(cur(t)) && pos(cur(t)) == old(pos(cur(t)))
 //@   assume[own-navigators] d.currentNode == nil || ref(d.currentNode) != ref(cur(t))   // navigators kept in query fields are copies the query made, never the caller's cursor
@@ -2335,13 +2417,21 @@ package xpath
 //@   ensures[proper-descendant-or-self@C01] result != nil ==> result == d.currentNode && (d.level >= 1 || d.level == 0 && d.MatchSelf && d.posit == 1)
 //@   loop 0 invariant[level@C01] d.level >= 0
 //@   loop 1 invariant[level@C01] d.level >= 1
+//@   assume[absb-def] absb(ref(d)) == absb(ref(d.Input))
+//@   assume[exhausted-state] xh(d) ==> d.level == 0 && xh(d.Input)     // only Select/Evaluate of this object touch these; re-established below
+//@   ensures[exhausted-state@C12] result == nil ==> d.level == 0 && xh(d.Input)
+//@   loop * invariant[exhausted@C12] d.Input == old(d.Input) && (old(xh(d)) && absb(ref(d)) ==> d.level == 0 && xh(d.Input))
 //@ func (*mergeQuery).Select
-//@   props C15 C13
-//@   theory stream for C13
+//@   props C15 C13 C12
+//@   theory stream for C13 C12
 //@   uses one-document
 //@   loop * invariant[cursor@C13] cur(t) == old(cur(t))
 //@   loop 0 invariant[cursor-outer@C13] pos(cur(t)) == old(pos(cur(t)))
 //@   loop 1 invariant[saved@C13] pos(saved) == old(pos(cur(t)))
+//@   assume[absb-def] absb(ref(m)) == absb(ref(m.Input))
+//@   assume[exhausted-state] xh(m) ==> m.iterator == nil && xh(m.Input)     // only Select/Evaluate of this object touch these; re-established below
+//@   ensures[exhausted-state@C12] result == nil ==> m.iterator == nil && xh(m.Input)
+//@   loop * invariant[exhausted@C12] m.Input == old(m.Input) && (old(xh(m)) && absb(ref(m)) ==> m.iterator == nil && xh(m.Input))
 
 // ---------------------------------------------------------------------------
 // Arithmetic operators (operator.go): package-level function literals, named after the
@@ -2462,3 +2552,5 @@ package xpath
 //@   ensures[reports-next@C12] result == (old(k(t.query)) < slen(ref(t.query), epoch(t.query)))
 //@   ensures[positioned@C12] result ==> t.node != nil && pos(t.node) == spos(ref(t.query), epoch(t.query), old(k(t.query))) && k(t.query) == old(k(t.query)) + 1
 //@   ensures[exhausted@C12] !result ==> k(t.query) == slen(ref(t.query), epoch(t.query)) && t.node == old(t.node) && pos(t.node) == old(pos(t.node))
+//@   ensures[stays-false@C12] old(xh(t.query)) && absb(ref(t.query)) ==> !result
+//@   ensures[marks-exhausted@C12] !result ==> xh(t.query)
